@@ -1380,9 +1380,10 @@ func (o *ovsdbClient) handleDisconnectNotification() {
 		return
 	}
 
-	// clear connection state
+	// clear connection state, holding the lock until done so that a new
+	// connection is not set up on top of the state being cleared
 	o.rpcClient = nil
-	o.rpcMutex.Unlock()
+	defer o.rpcMutex.Unlock()
 
 	for _, db := range o.databases {
 		db.cacheMutex.Lock()
